@@ -814,32 +814,31 @@ theorem fmtOf_userStr (hp : Bool) (len : Nat) (tab : Bool) :
 /-- invariant of a history run with both dump sinks on: file = string, and a non-empty selection is armed -/
 def DumpSt.Sync (s : DumpSt) : Prop := s.file = s.str ∧ (s.info.any = true → s.info.on = true)
 
-theorem dumpStep_sync (s : DumpSt) (sim : Option Bool × List Char) (h : s.Sync) :
-    (dumpStep true true true s sim).Sync := by
+theorem dumpStep_sync (prDump : Bool) (s : DumpSt) (sim : Option (Option Bool) × List Char) (h : s.Sync) :
+    (dumpStep true true prDump s sim).Sync := by
   obtain ⟨hf, ha⟩ := h
   rcases sim with ⟨_ | app, d⟩
-  · simp only [dumpStep, dumpSim, DumpSt.Sync, Bool.true_and, Bool.and_true, if_true]
-    refine ⟨?_, by simp⟩
+  · simp only [dumpStep, dumpSim, DumpSt.Sync, Bool.true_and]
     by_cases hany : s.info.any = true
-    · simp [hany, ha hany, hf]
-    · simp [hany, hf]
-  · simp [dumpStep, dumpSim, DumpSt.Sync, DumpSt.readDump, hf]
+    · cases prDump <;> simp [hany, ha hany, hf]
+    · cases prDump <;> simp [hany, hf]
+  · cases prDump <;> simp [dumpStep, dumpSim, DumpSt.Sync, DumpSt.readDump, hf]
 
 /-- **dump file = dump string** for every history of simulations (DUMP blocks with or without -append, simulations
-without DUMP, over any number of calls) during which both switches stay on, started from a synchronised state — in
-particular from a fresh instance -/
-theorem dump_both_on_identical (sims : List (Option Bool × List Char)) (s : DumpSt) (h : s.Sync) :
-    (sims.foldl (dumpStep true true true) s).file = (sims.foldl (dumpStep true true true) s).str := by
-  have : (sims.foldl (dumpStep true true true) s).Sync := by
+without DUMP, PRINT -dump on or off per simulation, over any number of calls) during which both switches stay on,
+started from a synchronised state — in particular from a fresh instance -/
+theorem dump_both_on_identical (sims : List (Bool × Option (Option Bool) × List Char)) (s : DumpSt) (h : s.Sync) :
+    (sims.foldl (dumpStepP true true) s).file = (sims.foldl (dumpStepP true true) s).str := by
+  have : (sims.foldl (dumpStepP true true) s).Sync := by
     induction sims generalizing s with
     | nil => exact h
-    | cons x xs ih => exact ih _ (dumpStep_sync s x h)
+    | cons x xs ih => exact ih _ (dumpStep_sync x.1 s x.2 h)
   exact this.1
 
 theorem dump_fresh_sync : ({} : DumpSt).Sync := ⟨rfl, by simp⟩
 
 /-- a disabled dump sink receives nothing -/
-theorem dump_disabled_nothing (fileOn strOn prDump : Bool) (s : DumpSt) (sim : Option Bool × List Char) :
+theorem dump_disabled_nothing (fileOn strOn prDump : Bool) (s : DumpSt) (sim : Option (Option Bool) × List Char) :
     (fileOn = false → (dumpStep fileOn strOn prDump s sim).file = s.file) ∧
     (strOn = false → (dumpStep fileOn strOn prDump s sim).str = s.str) := by
   constructor
@@ -848,33 +847,36 @@ theorem dump_disabled_nothing (fileOn strOn prDump : Bool) (s : DumpSt) (sim : O
   · intro h; subst h
     rcases sim with ⟨_ | app, d⟩ <;> simp [dumpStep, dumpSim, DumpSt.readDump]
 
-/-- -append: the new text is added behind what the sink held, otherwise it replaces it -/
-theorem dump_append_semantics (d : List Char) (s : DumpSt) (app : Bool) :
-    (dumpStep true true true s (some app, d)).file = (if app then s.file ++ d else d) ∧
-    (dumpStep true true true s (some app, d)).str = (if app then s.str ++ d else d) := by
-  cases app <;> simp [dumpStep, dumpSim, DumpSt.readDump, putDump]
+/-- -append: the new text is added behind what the sink held, otherwise it replaces it; a DUMP block without the
+option keeps the flag of the previous block -/
+theorem dump_append_semantics (d : List Char) (s : DumpSt) (app : Option Bool) :
+    (dumpStep true true true s (some app, d)).file = (if app.getD s.info.append then s.file ++ d else d) ∧
+    (dumpStep true true true s (some app, d)).str = (if app.getD s.info.append then s.str ++ d else d) := by
+  cases h : app.getD s.info.append <;> simp [dumpStep, dumpSim, DumpSt.readDump, putDump, h]
 
 /-- a DUMP block is executed once: after the simulation that read it (whichever sink was on), a simulation without
 a DUMP block writes nothing to either sink, whatever the switches are then -/
-theorem dump_one_shot (f1 s1 f2 s2 : Bool) (h : f1 = true ∨ s1 = true) (st : DumpSt) (app : Bool) (d e : List Char) :
+theorem dump_one_shot (f1 s1 f2 s2 : Bool) (h : f1 = true ∨ s1 = true) (st : DumpSt) (app : Option Bool) (d e : List Char) :
     let a := dumpStep f1 s1 true st (some app, d)
     (dumpStep f2 s2 true a (none, e)).file = a.file ∧ (dumpStep f2 s2 true a (none, e)).str = a.str := by
   cases f1 <;> cases s1 <;> cases f2 <;> cases s2 <;> simp [dumpStep, dumpSim, DumpSt.readDump] at h ⊢
 
-/-- the code as written consults `pr.dump` (PRINT -dump false) for the file only: with both sinks on the string
-receives the dump and the file does not (the full statement "both on ⇒ identical" needs `pr.dump` on) -/
-theorem dump_print_off_differs :
-    let r := dumpStep true true false {} (some false, "A".toList)
-    r.file = [] ∧ r.str = "A".toList := by
-  decide
+/-- PRINT -dump false: neither sink receives anything and the DUMP request stays pending (regression of f2ff7714: the
+string sink used to ignore `pr.dump`) -/
+theorem dump_print_off_nothing (fileOn strOn : Bool) (s : DumpSt) (sim : Option (Option Bool) × List Char) :
+    (dumpStep fileOn strOn false s sim).file = s.file ∧ (dumpStep fileOn strOn false s sim).str = s.str ∧
+    (dumpStep fileOn strOn false s (some (some false), sim.2)).info = ⟨true, true, false⟩ := by
+  rcases sim with ⟨_ | app, d⟩ <;> cases fileOn <;> cases strOn <;> simp [dumpStep, dumpSim, DumpSt.readDump]
 
-/-- non-vacuity: both sinks on over three simulations (DUMP -append, no DUMP, DUMP): one dump per DUMP block, equal sinks -/
+/-- non-vacuity: both sinks on over four simulations (DUMP -append, no DUMP, DUMP under PRINT -dump false, then
+PRINT -dump true): one dump per DUMP block, the suppressed request is executed when printing is switched on again -/
 example :
-    let r := [(some true, "a".toList), (none, "b".toList), (some false, "c".toList)].foldl (dumpStep true true true)
-      ({ file := "x".toList, str := "x".toList } : DumpSt)
-    r.file = "c".toList ∧ r.str = "c".toList ∧
-    ([(some true, "a".toList), (none, "b".toList)].foldl (dumpStep true true true)
-      ({ file := "x".toList, str := "x".toList } : DumpSt)).file = "xa".toList := by
+    let st : DumpSt := { file := "x".toList, str := "x".toList }
+    let r := [(true, some (some true), "a".toList), (true, none, "b".toList), (false, some (some false), "c".toList)].foldl
+      (dumpStepP true true) st
+    r.file = "xa".toList ∧ r.str = "xa".toList ∧
+    (dumpStepP true true r (true, none, "d".toList)).file = "d".toList ∧
+    (dumpStepP true true r (true, none, "d".toList)).str = "d".toList := by
   decide
 
 
